@@ -82,6 +82,25 @@ def match_known(known, prop, case, label):
     return None
 
 
+_DEMO_CACHE = {}
+
+
+def known_demo_reproduces(k):
+    """a known finding carries the concrete input that demonstrates it on the real code; it must still reproduce"""
+    key = k.get("id") or k.get("what")
+    if key not in _DEMO_CACHE:
+        d = k.get("demo")
+        if not d:
+            _DEMO_CACHE[key] = (False, "no stored demonstration")
+        else:
+            rec = dict(property=k["property"], body=d["body"], kwargs=d.get("kwargs", {}), label=d["label"], values=d["values"], tol=d.get("tol", 1e-6))
+            try:
+                _DEMO_CACHE[key] = replay_record(rec)
+            except Exception as e:  # noqa
+                _DEMO_CACHE[key] = (False, f"demonstration crashed: {e!r}")
+    return _DEMO_CACHE[key]
+
+
 def main(argv=None):
     argv = argv if argv is not None else sys.argv[1:]
     if argv and argv[0] == "replay":
@@ -144,7 +163,22 @@ def main(argv=None):
                 else:
                     violations.append((path, r["case"], v["label"], msg))
             else:
-                inconclusive.append((r["case"], dict(label=v["label"], why="solver model did not reproduce on the real code: " + msg, replay=path)))
+                k = match_known(known, prop, r["case"], v["label"])
+                if k and known_demo_reproduces(k)[0]:
+                    # same case class and clause as a recorded finding whose stored input still fails on the real code
+                    known_hits.append((k, r["case"], v["label"], "stored demonstration: " + known_demo_reproduces(k)[1]))
+                else:
+                    inconclusive.append((r["case"], dict(label=v["label"], why="solver model did not reproduce on the real code: " + msg, replay=path)))
+        # translator validation mismatches (a const-goal failure on a clause that is a known finding is the finding itself)
+        mm = []
+        for x in r.get("validate", {}).get("mismatch", []):
+            if x.get("kind") in ("const-goal", "float-goal"):
+                k = match_known(known, prop, r["case"], x.get("label", ""))
+                if k and known_demo_reproduces(k)[0]:
+                    continue
+            mm.append(x)
+        if mm:
+            inconclusive.append((r["case"], dict(label="translator-validation", why=json.dumps(mm, default=str)[:600])))
 
     # ---- evidence
     meta = getattr(mod, "META", {})
@@ -191,9 +225,16 @@ def main(argv=None):
 
     for r in results:
         print(f"  {r['case']}: paths={r['paths']} goals={r['goals']} unsat={r['unsat']} sat={r['sat']} unknown={r['unknown']} "
-              f"solver={r['solver_s']}s wall={r.get('wall_s')}s tv={r.get('validate', {}).get('runs', 0)}")
+              f"solver={r['solver_s']}s wall={r.get('wall_s')}s tv={r.get('validate', {}).get('runs', 0)}"
+              + (f" slowest={r.get('slow')[:2]}" if r.get("slow") and r["slow"][0][0] > 5 else ""))
+    printed = set()
     for k, case, label, msg in known_hits:
-        print(f"KNOWN-FINDING: property={prop} {k.get('what', '')} [case {case}, clause {label}: {msg}]")
+        kid = k.get("id") or k.get("what")
+        if kid in printed:
+            continue
+        printed.add(kid)
+        n_ = sum(1 for kk in known_hits if (kk[0].get("id") or kk[0].get("what")) == kid)
+        print(f"KNOWN-FINDING: property={prop} {kid}: {k.get('what', '')} [{n_} obligation(s), e.g. case '{case}', clause '{label}': {msg}]")
     for path, case, label, msg in violations:
         print(f"  case {case}, clause {label}: {msg}")
         print(f"VIOLATION property={prop} replay={path}")
